@@ -123,7 +123,9 @@ var crlExpiryAlts = []updAlt{
 }
 
 var crlEntryExtNames = []string{"none", "reasonCode=1", "reasonCode=10"}
-var crlIssuerAlts = []string{"ca", "noskid", "multidn", "utf8dn"}
+// "struct"/"struct2": hand-built (never parsed) issuer values; a reuse history that moves between the two
+// renames the SAME issuer object in place
+var crlIssuerAlts = []string{"ca", "noskid", "multidn", "utf8dn", "struct", "struct2"}
 
 func altNames(a []updAlt) []string {
 	out := make([]string, len(a))
@@ -148,8 +150,78 @@ func crlSpace() *space {
 		field{"issuer", crlIssuerAlts},
 		field{"key", keyKinds})
 	sp.canonical = func(a []int) bool { return slotsCanonical(a, 3) }
-	sp.run = runCRL
+	sp.slotPer = 3
+	sp.api = "CreateCRL"
+	sp.build = func(r *runner, a []int) caseObj { return buildCRL(r, a) }
+	sp.check = checkCRL
 	return sp
+}
+
+// crlCase: the inputs of Certificate.CreateCRL and what the CRL must report.
+type crlCase struct {
+	k           *keyMat
+	is          *issuer           // expectation side (name, key identifier, verification certificates)
+	issuerArg   *x509.Certificate // the receiver of CreateCRL (a private object for the hand-built issuers)
+	revoked     []pkix.RevokedCertificate
+	now, expiry time.Time
+
+	want          []entry
+	silentSerials bool
+}
+
+func (cs *crlCase) create() ([]byte, error) {
+	return cs.issuerArg.CreateCRL(fx.NewRand("c05-crl"), cs.k.signer, cs.revoked, cs.now, cs.expiry)
+}
+
+func (cs *crlCase) inputs() map[string]any {
+	return map[string]any{"issuer": cs.issuerArg, "revokedCerts": cs.revoked}
+}
+
+func (cs *crlCase) adopt(donor caseObj, f int) {
+	d := donor.(*crlCase)
+	switch {
+	case f == 0: // entry count: the same list is cut or extended
+		if len(d.revoked) <= len(cs.revoked) {
+			cs.revoked = cs.revoked[:len(d.revoked)]
+		} else {
+			cs.revoked = append(cs.revoked, d.revoked[len(cs.revoked):]...)
+		}
+	case f >= 1 && f <= 9: // a field of an entry: written into the existing element
+		s := (f - 1) / 3
+		if s >= len(cs.revoked) || s >= len(d.revoked) {
+			return // the slot fell out of the list with an entry-count edit
+		}
+		switch (f - 1) % 3 {
+		case 0:
+			cs.revoked[s].SerialNumber = d.revoked[s].SerialNumber
+		case 1:
+			cs.revoked[s].RevocationTime = d.revoked[s].RevocationTime
+		case 2:
+			cs.revoked[s].Extensions = d.revoked[s].Extensions
+		}
+	case f == 10:
+		cs.now = d.now
+	case f == 11:
+		cs.expiry = d.expiry
+	case f == 12:
+		cs.issuerArg = adoptIssuer(cs.is, cs.issuerArg, d.is, d.issuerArg)
+		cs.is = d.is
+	case f == 13:
+		// the issuer fixture belongs to the key kind
+		cs.k = d.k
+		cs.issuerArg = adoptIssuer(cs.is, cs.issuerArg, d.is, d.issuerArg)
+		cs.is = d.is
+	}
+}
+
+// adoptIssuer: between two hand-built issuer values the existing object is edited in place;
+// otherwise the caller switches to another issuer object.
+func adoptIssuer(cur *issuer, curArg *x509.Certificate, next *issuer, nextArg *x509.Certificate) *x509.Certificate {
+	if cur != nil && next != nil && cur.mk != nil && next.mk != nil && curArg != nil && nextArg != nil {
+		curArg.Subject, curArg.SubjectKeyId, curArg.KeyUsage = nextArg.Subject, nextArg.SubjectKeyId, nextArg.KeyUsage
+		return curArg
+	}
+	return nextArg
 }
 
 // slotsCanonical: fields 1.. are per-slot groups of `per` fields; a slot beyond
@@ -166,8 +238,7 @@ func slotsCanonical(a []int, per int) bool {
 	return true
 }
 
-func runCRL(r *runner, a []int) {
-	c := r.c
+func buildCRL(r *runner, a []int) *crlCase {
 	n := entryCounts[a[0]]
 	now, expiry := thisUpdAlts[a[10]].t, crlExpiryAlts[a[11]].t
 	k := r.key(keyKinds[a[13]])
@@ -192,16 +263,16 @@ func runCRL(r *runner, a []int) {
 		revoked = append(revoked, rc)
 		want = append(want, e)
 	}
+	return &crlCase{k: k, is: is, issuerArg: is.arg(), revoked: revoked, now: now, expiry: expiry, want: want, silentSerials: silentSerials}
+}
+
+// checkCRL judges the outcome of the creation call by the expectations of exp.
+func checkCRL(r *runner, a []int, exp caseObj, der []byte, err error) {
+	c := r.c
+	cs := exp.(*crlCase)
+	k, is, now, expiry, want, silentSerials := cs.k, cs.is, cs.now, cs.expiry, cs.want, cs.silentSerials
 	timesSilent := !expiry.After(now) // CreateCRL documents no ordering constraint: probe only
 
-	var der []byte
-	var err error
-	panicked, msg, site := ev.Try(func() { der, err = is.z.CreateCRL(fx.NewRand("c05-crl"), k.signer, revoked, now, expiry) })
-	c.Transitions.Add(1)
-	if panicked {
-		r.viol("panic@"+site+" in CreateCRL: "+ev.MsgClass(msg), msg)
-		return
-	}
 	if err != nil {
 		if silentSerials || timesSilent {
 			r.out("create refused (statement-silent serials/times): " + ev.MsgClass(err.Error()))
@@ -215,7 +286,7 @@ func runCRL(r *runner, a []int) {
 
 	// ---- parse back with the legacy parser ----
 	var cl *pkix.CertificateList
-	panicked, msg, site = ev.Try(func() { cl, err = x509.ParseDERCRL(der) })
+	panicked, msg, site := ev.Try(func() { cl, err = x509.ParseDERCRL(der) })
 	c.Transitions.Add(1)
 	if panicked {
 		r.viol("panic@"+site+" in ParseDERCRL of a created CRL: "+ev.MsgClass(msg), msg)
